@@ -298,6 +298,46 @@ def chromatic_case(M, m, n, kkind):
     return goals
 
 
+def chromatic_zero_case(M, n):
+    """dichromat chromatic membership when gamut vertices may have zero coordinates (no baseline, lb = 0, capture matrix entries >= 0, possibly exactly 0): only the
+    all-zero vertex is dropped; the gamut is the interval spanned by the chromaticities of all the others"""
+    from dreye.api.estimator import ReceptorEstimator
+    m = 2
+    A = M.real("A", (m, n), sample=lambda r, s: r.uniform(0.2, 2.0, size=s) * r.choice([0.0, 1.0, 1.0], size=s))
+    K = M.real("K", (m,), sample=lambda r, s: r.uniform(0.5, 2.0, size=s))
+    ub = M.real("ub", (n,), sample=lambda r, s: r.uniform(1.0, 3.0, size=s))
+    for v in np.asarray(A).ravel():
+        M.assume(v >= 0)
+    for v in list(K) + list(ub):
+        M.assume(v > 0)
+    lbl = [0] * n; ubl = list(ub)
+    B = M.real("B", (1, m), sample=lambda r, s: r.uniform(0.2, 3.0, size=s))
+    for v in np.asarray(B).ravel():
+        M.assume(v > 0)
+    est = ReceptorEstimator(np.ones((m, 2)), K=K)
+    est.A = A; est.Epsilon = "heteroscedastic"; est.lb = np.zeros(n); est.ub = ub
+    Aeff, beff = fs.effective_model(A, K, None, "vec")
+    cs = corners(n)
+    Pc = [fs.predict(Aeff, beff, corner_x(c, lbl, ubl)) for c in cs]
+    tot = [p[0] + p[1] for p in Pc]
+    keep = [k for k in range(len(cs)) if (bool(tot[k] != 0))]
+    if len(keep) < 2:
+        raise harness.SkipSample() if not M.symbolic else symnp.Abort()
+    try:
+        res = np.atleast_1d(np.asarray(est.in_hull(B, normalized=True)))
+    except Exception:
+        if len(keep) == 0:
+            return {}
+        raise
+    sh = [Pc[k][1] / tot[k] for k in keep]
+    bh = np.asarray(B)[0][1] / (np.asarray(B)[0][0] + np.asarray(B)[0][1])
+    if M.symbolic:
+        lo = symnp._reduce(symnp.smin, np.array(sh, dtype=object), None); hi = symnp._reduce(symnp.smax, np.array(sh, dtype=object), None)
+        rep = res[0] if isinstance(res[0], SB) else SB(z3.BoolVal(bool(res[0])))
+        return {"in the chromatic gamut <=> chromaticity between the extreme chromaticities of all non-zero vertices": SB(rep.t == z3.And(lift(lo) <= lift(bh), lift(bh) <= lift(hi)))}
+    return {"in the chromatic gamut <=> chromaticity between the extreme chromaticities of all non-zero vertices": bool(res[0]) == bool(min(sh) - 1e-12 <= bh <= max(sh) + 1e-12)}
+
+
 def lp_member(Aeff, beff, b, lb, ub):
     from scipy.optimize import linprog
     Ae = np.array(Aeff, dtype=float); be = np.array(beff, dtype=float)
@@ -339,6 +379,7 @@ def cases(tier, seed):
         for (m, n, kk) in ((2, 2, "none"), (2, 3, "none"), (2, 2, "vec")):
             C.append(dict(name=f"{m}x{n} unbounded sources {direction} K={kk}", body="unbounded_case", kwargs=dict(m=m, n=n, kkind=kk, direction=direction),
                           opts=dict(timeout_ms=120000, n_validate=2), expect_tags=("affine-cone",)))
+    C.append(dict(name="2x2 chromatic membership with zero capture entries (no baseline, lb = 0)", body="chromatic_zero_case", kwargs=dict(n=2), opts=dict(timeout_ms=60000, n_validate=3, max_paths=600)))
     for (m, n, kk) in ((2, 2, "vec"), (2, 3, "mat"), (3, 3, "vec")) + (((3, 4, "vec"),) if big else ()):
         C.append(dict(name=f"{m}x{n} chromatic membership K={kk}", body="chromatic_case", kwargs=dict(m=m, n=n, kkind=kk), opts=dict(timeout_ms=120000, n_validate=2)))
     return C
